@@ -69,7 +69,7 @@ check("C07", "model_checking",
       "Explicit-state search over histories of one handle: alphabet {set, delete, symref, peeled tag on two refs, append log, delete newest log} interleaved with compaction of EVERY contiguous range of the current stack and CompactAll (quick: <=3 transactions and <=2 compactions, plus 4 transactions and 1 compaction, plus auto-compacting histories of 5 transactions; thorough: one more transaction and five write configurations). After every transaction the full scan through Stack.Merged() must equal the reference map; after every compaction it must be identical to the scan before; the compacted table must decode (independent decoder) to the newest-wins overlay of its inputs with ref tombstones dropped only if the range includes the oldest table.",
       SEQ_NOTE, "explicit-state search (DFS with state dedup on table contents) over operation sequences of the real Stack against a reference map", "DESIGN.md 5.3, 6/C07", "seqbfs")
 check("C09", "model_checking",
-      "Explicit-state search over histories of 2-3 handles on one directory (auto-compacting and not; one family with handles of different hash types): alphabet per handle {Add, retry of a failed Add, NewAddition+Close, CompactAll, Clean}, depth 5 (thorough 6). With the reference notion of staleness (handle's table names != tables.list): a stale Add/NewAddition must return ErrLockFailure, a stale CompactAll must change nothing, a stale Clean must fail, the directory hash must be unchanged; after a failed Add UpToDate() holds, NextUpdateIndex() exceeds every committed index and the immediate retry succeeds; non-stale calls behave as the reference map says.",
+      "Explicit-state search over histories of 2-3 handles on one directory (auto-compacting and not; one family with handles of different hash types): alphabet per handle {Add, retry of a failed Add, NewAddition+Close, CompactAll, Clean, hold the list lock (open Addition), release it}, depth 7 for two handles and 5 for three (thorough 9 / 7). While another handle holds the lock every write must fail with ErrLockFailure and change nothing, and a failed Add must still leave the handle refreshed. With the reference notion of staleness (handle's table names != tables.list): a stale Add/NewAddition must return ErrLockFailure, a stale CompactAll must change nothing, a stale Clean must fail, the directory hash must be unchanged; after a failed Add UpToDate() holds, NextUpdateIndex() exceeds every committed index and the immediate retry succeeds; non-stale calls behave as the reference map says.",
       SEQ_NOTE, "explicit-state search over multi-handle operation sequences of the real Stack with a reference staleness oracle", "DESIGN.md 5.3, 6/C09", "seqbfs")
 check("C12", "model_checking",
       "Breadth-first search over all reachable (live set, tombstone set) states of a stack with name checking, over 6 well-formed names rich in prefix relations and 5 malformed ones: in EVERY state every transaction of <=2 records (add or delete; 242 transactions, thorough adds 3-record ones) is submitted through Add and through both two-table splits of an Addition, and CompactAll is applied; acceptance must equal the reference rule (accept iff every added name is well-formed and (live - deletions) + additions is conflict-free) and the live set read back must equal the model's and be conflict-free.",
@@ -79,7 +79,7 @@ check("C13", "model_checking",
       SEQ_NOTE, "bounded-exhaustive enumeration of stacks x expiry configurations on the real Stack against the reference expiry rule", "DESIGN.md 6/C13", "seqbfs")
 
 check("C17", "model_checking",
-      "(a) The real segment chooser is run on EVERY table-size vector of length 0..5 (thorough: 0..7, 39 million vectors) over 12 sizes straddling the power-of-two class boundaries: it must report nothing iff no two adjacent sizes share a size class, otherwise a contiguous in-range segment of at least two tables, and iterating 'suggest, replace by the sum' must terminate in fewer than len steps. (b) 144 single-writer workload shapes (name length x value kind x 1/3/20 refs per transaction x fresh or rewritten names x 4 write configurations) of identical-size transactions run on the real Stack for N = 512 (thorough 4096) transactions, checked after EVERY Add: a compaction that ran reduced the table count and did not fail, depth <= 2*log2(n), Stats.EntriesWritten <= n*log2(n)*entries per transaction.",
+      "(a) The real segment chooser is run on EVERY table-size vector of length 0..5 (thorough: 0..7, 39 million vectors) over 12 sizes straddling the power-of-two class boundaries: it must report nothing iff no two adjacent sizes share a size class, otherwise a contiguous in-range segment of at least two tables, and iterating 'suggest, replace by the sum' must terminate in fewer than len steps. (b) 192 single-writer workload shapes (name length x value kind incl. deletion-only x 1/3/20 refs per transaction x fresh or rewritten names x 4 write configurations) of identical-size transactions run on the real Stack for N = 512 (thorough 4096) transactions, checked after EVERY Add: a compaction that ran reduced the table count and did not fail, depth <= 2*log2(n), Stats.EntriesWritten <= n*log2(n)*entries per transaction.",
       "In-memory directory in atomic mode (single writer). 'For all N' is decided up to the stated N. Three small-N exceedances of the entries bound (n = 3, 4, 12) are genuine but benign consequences of the policy and are listed as known findings; every other n is checked.",
       "exhaustive enumeration of size vectors on the real chooser + exhaustive per-step checking of workload histories on the real Stack", "DESIGN.md 6/C17", "autocompact")
 
@@ -87,6 +87,11 @@ check("C18", "fault_enumeration",
       "Deviation-bounded corruption of a corpus of valid tables, one per distinct layout the writer produces (both versions, padded/unaligned, refs/logs/both, 0-2 index levels, object index): 0 deviations = the table; 1 deviation = EVERY offset x a 14-value alphabet (thorough: all 255 other values), every truncation length, every one-byte insertion and deletion, and every offset x value inside the inflated payload of a final log block (re-deflated); 2 deviations = all pairs of substitutions over structural bytes (block headers, restart tables, first-record varints, footer positions). The footer CRC is repaired and header edits mirrored into the footer whenever the edit touches them (both variants are run). Each mutant goes through NewReader, full ref and log scans, seeks, and RefsFor via the library's own ByteBlockSource; every call must return: no panic (attributed to its innermost reftable frame), no hang (deterministic read/step budgets), no unbounded allocation (per-input allocation budget; workers under an address-space limit so that a fatal out-of-memory is attributed to the mutant).",
       "'For all byte strings' is decided for all strings within one edit (two structural edits) of the corpus. Coverage-guided fuzzing, which the property text mentions, is sampling - a different family - and is not used. The enumerated objects are corruptions, hence fault_enumeration.",
       "exhaustive enumeration of 1- and 2-edit corruptions of a layout-covering corpus, driven through every read path of the real reader", "DESIGN.md 6/C18", "corrupt")
+
+check("C19", "model_checking",
+      "For four shared objects (a Reader over memory with 128-byte blocks, an unaligned one, a file-backed SHA-256 one over the in-memory directory, and a Merged view of three readers) every ordered pair of 8 read programs (seek+next on refs and logs, RefsFor, scans, ReadRef, ReadLogAt) and selected triples (thorough: all triples) run as goroutines under the controlled scheduler with scheduling points at every API call and every ReadBlock/ReadAt; ALL interleavings are explored. (i) every goroutine must get exactly the results it gets alone; (ii) when the package uses no synchronisation primitives, a deep hash (through unexported fields) of the shared object graph and of all package-level variables must not change during any read step - an unsynchronised write on a read path is a data race as soon as two goroutines take it. Supplementary, not part of the exhaustive claim: the same bodies free-running under the Go race detector; a report is a violation (it is always a real race), silence is not evidence.",
+      "The observable half of C19 is decided at ReadBlock/API-call granularity; 'no data race in the Go memory model' for writes invisible in the object graph is outside a cooperative scheduler (brief: hand-offs are happens-before edges). If the package imports sync or sync/atomic the frozen-state invariant is switched off (mutation may then be legitimate) and the evidence says so.",
+      "stateless DFS over all goroutine interleavings of the real readers + frozen-state invariant; race detector as labelled supplement", "DESIGN.md 6/C19", "sharedread")
 
 ALL = [f"C{n:02d}" for n in range(1, 20)]
 NOT_YET = "check not built yet in this working session (design in DESIGN.md section 6); will be claimed once it runs"
@@ -112,6 +117,8 @@ manifest = {
          "kind_free_text": "exhaustive size-vector enumeration on the real segment chooser; workload histories on the real Stack checked after every Add"},
         {"name": "corrupt", "path": "harness/corrupt", "serves_properties": ["C18"],
          "kind_free_text": "deviation-bounded corruption enumeration over a corpus of writer-produced tables; workers under ulimit -v with per-mutant markers"},
+        {"name": "sharedread", "path": "harness/sharedread", "serves_properties": ["C19"],
+         "kind_free_text": "engine E1 scheduler over goroutines sharing a Reader/Merged; scheduling points at API calls and ReadBlock; deep-hash frozen-state invariant; -race build for the supplementary pass"},
         {"name": "crashseq", "path": "harness/crashseq", "serves_properties": ["C06"],
          "kind_free_text": "engine E1 in sequential mode: every filesystem-call boundary of a call is a crash point; survivor program on the real code"},
     ],
